@@ -22,6 +22,10 @@ Check(r, idx) ==
     \o (IF r.hang = 0 /\ r.massn = 0 /\ r.mustsweep = 1 /\ r.est # r.sc.warmlive THEN <<F(idx, "C13.still_counted", <<r.est, r.sc>>)>> ELSE <<>>)
     \* (a removal that was reported, but as Overflow, is C06's: the cause does not match)
     \o (IF r.hang = 0 /\ r.massn = 0 /\ r.mustsweep = 1 /\ r.expired # 1 /\ ~(r.overflow = 1 /\ r.expired = 0) THEN <<F(idx, "C13.expiration_not_reported", <<r.expired, r.other, r.sc>>)>> ELSE <<>>)
+    \* the policies evict a stale node of the key (no longer current, nothing removed from the table) while a load is in flight (op ld-x):
+    \* the load is not disturbed - a second Get joins it instead of invoking its loader
+    \o (IF r.hang = 0 /\ r.overlap = 1 THEN <<F(idx, "C08.overlap_after_stale_eviction", <<r.ldruns, r.sc>>)>> ELSE <<>>)
+    \o (IF r.hang = 1 /\ r.sc.op \in {"ld.staleevict.inv", "ld.staleevict.set"} THEN <<F(idx, "C08.hang", r.sc)>> ELSE <<>>)
     \* many entries due in one sweep (op mass-x): one quiescent run removes and reports every one of them
     \o (IF r.hang = 0 /\ r.massn > 0 /\ (r.est # 0 \/ r.massexpired # r.massn) THEN <<F(idx, "C13.mass_expiration_incomplete", <<r.massn, r.est, r.massexpired, r.other, r.sc>>)>> ELSE <<>>)
     \* gated read race (ExpireRace.tla): the sweeper is parked between the wheel's test of the deadline and the removal while the
